@@ -1580,15 +1580,28 @@ static void c12_done(Run &run, Req &r) {
   auto join = [](const std::vector<std::string> &v) { std::string o; for (auto &x : v) { std::string y = x.size() > 60 ? x.substr(0, 28) + ".." + x.substr(x.size() - 28) : x; o += (o.empty() ? "" : " , ") + y; } return o; };
   std::string ctx = std::string(req_kind_name[r.kind]) + " '" + (name.size() > 70 ? name.substr(0, 70) + ".." : name) + "' type " + std::to_string(qtype) + " ndots " + std::to_string(ndots) + " domains [" + join(dom) + "]" + ((flags & ARES_FLAG_NOSEARCH) ? " NOSEARCH" : "") + (alias ? " alias" : "");
   bool seq_ok = false, both_ok = false;
+  // Two consecutive candidates with the same wire name (the root domain on the list) are two queries; when the second happens to
+  // draw the first one's 16-bit id (and the first was not answered definitively) their transmissions cannot be told apart from
+  // retries. An expected sequence then also matches when it equals what was seen up to such repeats.
+  auto collapse = [](const std::vector<std::string> &v) { std::vector<std::string> o; for (auto &x : v) if (o.empty() || o.back() != x) o.push_back(x); return o; };
+  auto one_id_only = [&](const std::string &qn) { std::set<int> ids; for (int i = r.tx_at_submit; i < (int)W.txs.size(); i++) { const Tx &t = W.txs[(size_t)i]; if (t.token == r.token && t.decode_err.empty() && !t.msg.qd.empty() && t.msg.qd[0].type == qtype && t.qname_lc == qn) ids.insert((int)t.msg.id); } return ids.size() == 1; };
+  std::vector<const C12Alt *> matching;
   for (auto &a : alts) {
-    if (a.wire != seen) continue;
+    bool same = a.wire == seen;
+    if (!same && a.wire.size() > seen.size() && collapse(a.wire) == collapse(seen)) {
+      same = true;
+      for (size_t i = 1; i < a.wire.size(); i++) if (a.wire[i] == a.wire[i - 1] && !one_id_only(a.wire[i])) same = false;
+      if (same) run.note("search_candidates_indistinguishable_same_id");
+    }
+    if (!same) continue;
     seq_ok = true;
+    matching.push_back(&a);
     if (a.status.count(-2) ? r.status != ARES_SUCCESS : a.status.count(r.status) > 0) both_ok = true;
   }
   if (!seq_ok) { run.violate("C12", "candidate_sequence", ctx + ": expected candidates on the wire [" + join(alts.empty() ? std::vector<std::string>() : alts.back().wire) + "]" + (alts.size() > 1 ? " (or " + std::to_string(alts.size() - 1) + " permitted variant(s))" : "") + ", saw [" + join(seen) + "]"); return; }
   if (!both_ok) {
     std::string want;
-    for (auto &a : alts) if (a.wire == seen) for (int st : a.status) want += std::string(want.empty() ? "" : " or ") + (st == -2 ? "any error" : ares_status_name(st));
+    for (auto *a : matching) for (int st : a->status) want += std::string(want.empty() ? "" : " or ") + (st == -2 ? "any error" : ares_status_name(st));
     run.violate("C12", "final_status", ctx + ": candidates [" + join(seen) + "] should end with " + want + ", callback got " + ares_status_name(r.status));
   }
 }
